@@ -285,6 +285,10 @@ static void run(int from, int to) {
                 if (m != MAP_FAILED) m[0] = 1; /* beyond EOF of an empty file -> SIGBUS */
             }
         }
+        else if (!strcmp(c, "echoer")) { /* answer every byte arriving on fd 0 with 'E' on fd 1, until end of file */
+            char ch;
+            while (read(0, &ch, 1) == 1) { if (write(1, "E", 1) != 1) break; }
+        }
         else if (!strcmp(c, "exec")) { /* exec: the rest of the current block is run by a fresh image of this program */
             static char rest[1 << 16];
             size_t off = 0;
